@@ -17,4 +17,7 @@ print(f"baseline: {len(stable & ok)}/{len(stable)} stable tests pass; newly pass
 for m in missing: print("  FAIL", m)
 sys.exit(1 if missing else 0)
 PY
-rc=$?; rm -f /tmp/_baseline_$$.xml /tmp/_baseline_$$.log; exit $rc
+rc=$?; rm -f /tmp/_baseline_$$.xml /tmp/_baseline_$$.log
+# the suite writes output tables next to the shipped examples: restore the tree
+git -C "$DIR" checkout -q -- examples 2>/dev/null; git -C "$DIR" clean -fdq examples 2>/dev/null
+exit $rc
